@@ -166,10 +166,10 @@ def catalogue(tier, seed):
 # ------------------------------------------------------------------ legs
 
 def leg_m_jobs(tier):
-    jobs = [("MCSync", "Sync_byz_quick.cfg", "Sync byzantine (victim + honest + Byzantine peer, 8-block tree): safety + HonestProgress", 6, 1500)]
+    jobs = [("SyncMC", "Sync_byz_quick.cfg", "Sync byzantine (victim + honest + Byzantine peer, 8-block tree): safety + HonestProgress", 6, 1500)]
     if tier == "thorough":
-        jobs.append(("MCSync", "Sync_byz_full.cfg", "Sync byzantine (victim + honest + Byzantine peer, TreeB, all victim positions): safety + HonestProgress", 6, 3000))
-        jobs.append(("MCSync", "Sync_byz_req1.cfg", "Sync byzantine, every download on the pre-validated path (ReqH = 1): safety + HonestProgress", 6, 3000))
+        jobs.append(("SyncMC", "Sync_byz_full.cfg", "Sync byzantine (victim + honest + Byzantine peer, TreeB, all victim positions): safety + HonestProgress", 6, 3000))
+        jobs.append(("SyncMC", "Sync_byz_req1.cfg", "Sync byzantine, every download on the pre-validated path (ReqH = 1): safety + HonestProgress", 6, 3000))
     return jobs
 
 
@@ -312,12 +312,6 @@ def selftest():
             e["who"] = "honest:p0"
             return True
 
-    def lost_ban(e):
-        # a rejected submission that is NOT followed by a Ban: turn the Ban into a harmless pool event
-        if e["op"] == "Ban" and e["kind"] == "invalid-block" and e["why"].startswith("peer sent invalid blocks") or (e["op"] == "Ban" and "reorg failed" in e.get("why", "")):
-            e["op"] = "AddV2Pool"; e["n"] = 1; e["bk"] = True; e["tip"] = "__same__"
-            return True
-
     def hide_err(e):
         if e["op"] == "AddBlocks" and e["err"]:
             e["err"] = False
@@ -331,7 +325,7 @@ def selftest():
         log("selftest 2 (trace with %s rejected by TLC): %s" % (name, "ok" if got else ("FAILED" if got is False else "no such event")))
         ok2 = ok2 and bool(got)
     # 3. the model without pre-validation of instant-sync batches must violate AlwaysValid
-    x = vlib.run_tlc(wd, "MCSync", "Sync_byz_mut_novalidate.cfg", workers=4, timeout=900)
+    x = vlib.run_tlc(wd, "SyncMC", "Sync_byz_mut_novalidate.cfg", workers=4, timeout=900)
     ok3 = x.exit != 0 and x.violated == "AlwaysValid"
     log("selftest 3 (model without ValidateBlock on the instant-sync path violates AlwaysValid): %s" % ("ok" if ok3 else "FAILED"))
     # 4. the ban expectation bites: a corruption the code answers by dropping is not accepted as 'banned'
